@@ -261,3 +261,25 @@ pub open spec fn fee_validated(u: UnsafeProtocolFeeConfig, p: ProtocolChainConfi
     &&& opt_addr_validated(u.treasury_address, r.treasury_address, p.account_address_prefix@)
 }
 } // verus!
+verus! {
+// ------------------------------------------------------------------ pagination (C17)
+pub use crate::cw_storage_plus::{Bound, Bounder, KeyDeserialize, MapRange, range_of};
+pub open spec fn item_vals<K, V>(items: Seq<StdResult<(K, V)>>) -> Seq<V> {
+    items.map_values(|r: StdResult<(K, V)>| r->Ok_0.1)
+}
+pub open spec fn dyn_pass<V>(f: Option<DynPred<V>>) -> spec_fn(V) -> bool {
+    |v: V| match f { None => true, Some(d) => (d.p@)(v) }
+}
+/// the page: the first `limit` of the values that pass the filter
+pub open spec fn page_of<K, V>(items: Seq<StdResult<(K, V)>>, f: Option<DynPred<V>>, limit: Option<u32>) -> Seq<V> {
+    let fv = item_vals(items).filter(dyn_pass(f));
+    let n: int = match limit { Some(l) => l as int, None => u32::MAX as int };
+    if fv.len() <= n { fv } else { fv.take(n) }
+}
+pub open spec fn page_min<'a, K: Bounder<'a>>(start_after: Option<K>, order: Order) -> Option<Bound<'a, K>> {
+    match order { Order::Ascending => match start_after { Some(k) => Some(Bound::Exclusive((k, core::marker::PhantomData))), None => None }, Order::Descending => None }
+}
+pub open spec fn page_max<'a, K: Bounder<'a>>(start_after: Option<K>, order: Order) -> Option<Bound<'a, K>> {
+    match order { Order::Descending => match start_after { Some(k) => Some(Bound::Exclusive((k, core::marker::PhantomData))), None => None }, Order::Ascending => None }
+}
+} // verus!
